@@ -469,3 +469,38 @@ Proof. vm_compute. repeat split; reflexivity. Qed.
 
 Print Assumptions C19_history_refines_desc.
 Print Assumptions C19_values_reset_total.
+
+(* ---- round 6: mpt::source<T> of mptcore/types.h (the C++ iterator over a span with a step) ----
+   Mechanism: [csrc] (elements of the span, position, step, type id), [mk_csrc] = the constructor
+   source(val, len, step) WITH docs/C19_span_negative_length.diff (a span created with a negative length is
+   empty).  It is an eighth kind [SSrc] of [src]: [inv rnd (SSrc m)] is [step <> 0 /\ 0 < type id], it is
+   [numeric], its cursor is the list of elements visited from the position on - so C19_walk_visits_exactly,
+   C19_walk_of_nothing, C19_past_end_reported, C19_reset_replays, C19_denoted_stable, C19_clone_replays and
+   C19_history_refines above hold for it as they stand.  The constructor result (any length - negative, 0,
+   up to the number of elements given - any step but 0): invariant, stands at the start of what it denotes;
+   a negative length denotes NOTHING; with step 1 it denotes the first len elements in order. *)
+Theorem C19_source_fresh :
+  forall (rnd : Q -> fv) elems len step ty,
+    step <> 0%Z -> (0 < ty)%Z -> (len <= Z.of_nat (length elems))%Z ->
+    let s := SSrc (mk_csrc elems len step ty) in
+    inv rnd s /\ numeric s = true /\ remaining rnd (abs s) = denoted rnd (abs s) /\
+    ((len < 0)%Z -> denoted rnd (abs s) = []) /\
+    (step = 1%Z -> (0 <= len)%Z -> denoted rnd (abs s) = map EV (firstn (Z.to_nat len) elems)) /\
+    srel rnd (Some s) (Some (abs s)).
+Proof. exact source_fresh. Qed.
+
+(* five int32 elements walked backwards in steps of 2 (examples/cxx/iter.cpp), reset; a negative length *)
+Example C19_ex_source :
+  mrun rnd64 (Some (SSrc (mk_csrc [Fin 1; Fin 2; Fin 3; Fin 4; Fin 5] 5 (-2) 105)), None)
+       [(OValue, false); (OAdvance, false); (OValue, false); (OAdvance, false); (OValue, false); (OAdvance, false);
+        (OValue, false); (OAdvance, false); (OReset, false); (OValue, false)]
+  = [OutV (VNum 0 (Some (Fin 5))); OutA 105; OutV (VNum 0 (Some (Fin 3))); OutA 105; OutV (VNum 0 (Some (Fin 1)));
+     OutA 0; OutV VNone; OutA MissingData; OutR 5; OutV (VNum 0 (Some (Fin 5)))] /\
+  abs (SSrc (mk_csrc [Fin 1; Fin 2; Fin 3; Fin 4; Fin 5] 5 (-2) 105))
+  = CList [EV (Fin 5); EV (Fin 3); EV (Fin 1)] [EV (Fin 5); EV (Fin 3); EV (Fin 1)] false /\
+  mrun rnd64 (Some (SSrc (mk_csrc [Fin 1; Fin 2] (-1) 1 100)), None)
+       [(OValue, false); (OAdvance, false); (OValue, false); (OReset, false); (OValue, false)]
+  = [OutV VNone; OutA MissingData; OutV VNone; OutR 0; OutV VNone].
+Proof. vm_compute. repeat split; reflexivity. Qed.
+
+Print Assumptions C19_source_fresh.
